@@ -151,6 +151,51 @@ def h_corpus(env):
     env.check("proto-name-maps-back", casing.safe_snake_case(n) == f)
 
 
+# pairs of field names that are close to each other; the first of each pair maps back from every key to_dict emits for it
+# (the second may lie in the known region `camelCase key loses a word boundary`, and only its proto name is checked)
+PAIRS = [("address_line1", "address_line_1"), ("ipv4", "ipv_4"), ("x1", "x_1"), ("field1_name", "field_1_name"), ("ab", "a_b"), ("foo_bar", "foo__bar"), ("xyz", "x_yz")]
+
+
+def h_two_classes(env):
+    """end to end through Message.to_dict / from_dict: two message classes in one process whose field names are close (same camelCase key or
+    same letters); the keys to_dict emits for the first one, and its proto name, map back to its field whatever the other class did before"""
+    import betterproto
+
+    from .. import shapes
+    from ..shapes import F, Catalogue, Shape
+
+    from betterproto.compile import naming
+
+    i = env.choose("pair", len(PAIRS))
+    p1, p2 = PAIRS[i]
+    # the Python field names are what the plugin generates for these proto names
+    n1, n2 = str(naming.pythonize_field_name(p1)), str(naming.pythonize_field_name(p2))
+    cat = Catalogue("c19-two-%d" % i, [Shape("M", [F(n1, 1, "int32"), F("other", 2, "int32")]), Shape("Other", [F(n2, 1, "int32"), F("other", 2, "string")])], [])
+    mod = shapes.build_bp(cat)
+    v = env.int("v", -64, 63)
+    order = env.choose("other-class-used", 4)  # never | before M's first use | between M's to_dict and from_dict (two ways)
+
+    def use_other():
+        if order == 3:
+            mod.Other().from_dict({p2: 1, "other": "x"})
+        else:
+            mod.Other(**{n2: 1}).to_dict()
+
+    if order == 1:
+        use_other()
+    m = mod.M(**{n1: v, "other": 7})
+    for casing in (betterproto.Casing.CAMEL, betterproto.Casing.SNAKE):
+        d = m.to_dict(casing=casing)
+        if order >= 2:
+            use_other()
+        back = mod.M().from_dict(d)
+        env.check("emitted-keys-map-back", sym.sym_and(back == m, bytes(back) == bytes(m)), "%r" % (sorted(d),))
+    back = mod.M().from_dict({p1: v, "other": 7})
+    env.check("proto-name-maps-back", back == m)
+    o = mod.Other().from_dict({p2: v})
+    env.check("proto-name-maps-back", getattr(o, n2) == v)
+
+
 def units(tier):
     u = []
     top = 4 if tier == "quick" else 6
@@ -162,6 +207,7 @@ def units(tier):
         for n in range(1, (3 if tier == "quick" else 4) + 1):
             u.append(("enum-member-names[enum=%d member=%d]" % (e, n), h_enum_member_names, {"e": e, "n": n}))
     u.append(("corpus", h_corpus, {}))
+    u.append(("two-classes-with-similar-field-names", h_two_classes, {}))
     return u
 
 
